@@ -32,6 +32,7 @@ fn begin_call(task: usize, k: usize, call: &Call) {
     t.records = 0;
     t.panic_at = call.panic_at;
     t.fault_fired = false;
+    t.in_between = false;
     t.overlapped = !others.is_empty();
     if !others.is_empty() {
         st.counters.calls_overlapped += 1;
